@@ -50,6 +50,10 @@ type c25Pres struct {
 	twinE       bool
 	innerCalled bool
 	passed      bool
+	// accSeq: the instant the gate let this presentation through, when the
+	// harness can see it exactly (the inner authenticator was entered); 0
+	// otherwise (no inner authenticator: the instant lies in [startSeq, endSeq]).
+	accSeq int
 }
 
 // c25Proof is a proof string seen on the wire.
@@ -155,8 +159,10 @@ func C25(e *simkern.Env) {
 
 		inner := func(r *http.Request) (*vgirpc.AuthContext, error) {
 			id, _ := strconv.Atoi(r.Header.Get("X-Sim-Pres"))
-			if p := byID[id]; p != nil {
+			if p := byID[id]; p != nil && !p.innerCalled {
 				p.innerCalled = true
+				seq++
+				p.accSeq = seq
 			}
 			sim.Probe("inner-called")
 			sim.Y("inner.authenticate")
@@ -223,25 +229,48 @@ func C25(e *simkern.Env) {
 			return err == nil
 		}
 
-		// othersBetween: upper bound on the number of distinct proofs other
-		// than ident this gate's cache may have admitted between the start of
-		// presentation a and now (accepted ones, and ones still in flight).
-		othersBetween := func(g *c25Gate, ident string, a *c25Pres) int {
+		// Admission instants. A presentation that passed did so at one instant
+		// (its checkAndAdd); the harness knows it exactly when an inner
+		// authenticator was entered right after (accSeq), and otherwise only that
+		// it lies inside the presentation's interval. An operation that is still
+		// in flight and has not reached the inner authenticator may or may not
+		// have been admitted yet.
+		const c25Inf = int(^uint(0) >> 1)
+		admBounds := func(q *c25Pres) (lo, hi int) {
+			if q.accSeq != 0 {
+				return q.accSeq, q.accSeq
+			}
+			if q.endSeq == 0 {
+				return q.startSeq, c25Inf
+			}
+			return q.startSeq, q.endSeq
+		}
+		acceptedSoFar := func(q *c25Pres) bool { return q.accSeq != 0 || (q.endSeq != 0 && q.passed) }
+		// othersWithin: upper bound on the number of distinct proofs other than
+		// ident that this gate's cache may have admitted at an instant in [lo, hi].
+		othersWithin := func(g *c25Gate, ident string, lo, hi int) int {
 			set := map[string]bool{}
 			for _, q := range g.pres {
 				if q.ident == "" || q.ident == ident {
 					continue
 				}
-				if q.endSeq != 0 && q.endSeq < a.startSeq {
-					continue
+				if !acceptedSoFar(q) && q.endSeq != 0 {
+					continue // completed and refused: never admitted
 				}
-				if q.endSeq == 0 || q.passed {
+				qlo, qhi := admBounds(q)
+				if qhi >= lo && qlo <= hi {
 					set[q.ident] = true
 				}
 			}
 			return len(set)
 		}
 
+		endOrInFlight := func(q *c25Pres) string {
+			if q.endSeq == 0 {
+				return "(past the gate, still in flight)"
+			}
+			return q.endT.UTC().Format("15:04:05.000")
+		}
 		judge := func(p *c25Pres, err error) {
 			g := p.gate
 			desc := fmt.Sprintf("gate %s skew=%ds capacity=%d cache=%v: %s by %s, %d proof header(s) %q, worker clock %s..%s",
@@ -300,33 +329,67 @@ func C25(e *simkern.Env) {
 			if disableCache {
 				return
 			}
-			// Replay clause. The most recent earlier acceptance of the same
-			// proof gives the smallest "in between" set.
-			var prev *c25Pres
+			// Replay clause, judged pairwise: for every other acceptance q of the
+			// same proof, one of the two was the later one, i.e. a replay. Which
+			// one is decided by the admission instants (exact when an inner
+			// authenticator is configured); when the two overlap and the instants
+			// are not known, the clause is applied only if it is violated whichever
+			// came first. "In between" is an upper bound over the hull of both
+			// admission instants.
+			judgedAny := false
 			for _, q := range g.pres {
-				if q != p && q.endSeq != 0 && q.passed && q.ident == p.ident {
-					if prev == nil || q.startSeq > prev.startSeq {
-						prev = q
+				if q == p || q.ident != p.ident || !acceptedSoFar(q) {
+					continue
+				}
+				plo, phi := admBounds(p)
+				qlo, qhi := admBounds(q)
+				var later *c25Pres
+				switch {
+				case qhi < plo:
+					later = p
+				case phi < qlo:
+					if q.endSeq == 0 {
+						continue // q is the later one and still in flight: judged when it completes
+					}
+					later = q
+				default:
+					if q.endSeq == 0 {
+						continue
 					}
 				}
-			}
-			if prev == nil {
+				judgedAny = true
+				stillValid := p.twinS && p.twinE && q.twinS && q.twinE
+				if later != nil {
+					stillValid = later.twinS && later.twinE
+				}
+				if !stillValid {
+					sim.Probe("reaccepted-after-timestamp-left-window")
+					continue
+				}
+				lo, hi := plo, phi
+				if qlo < lo {
+					lo = qlo
+				}
+				if qhi > hi {
+					hi = qhi
+				}
+				others := othersWithin(g, p.ident, lo, hi)
+				if g.capacity > 0 && others >= g.capacity {
+					sim.Probe("reaccepted-after-capacity-eviction")
+					continue
+				}
+				first := q
+				if later == q {
+					first = p
+				}
+				e.Violate("replayed-proof-accepted", p.kind,
+					"%s: this proof was also accepted by presentation %d (%s by %s) at worker clock %s..%s; the later of the two carries a timestamp (%s) this worker still accepts (stateless twin accepts it) and at most %d other distinct proof(s) were admitted in between",
+					desc, first.id, first.kind, first.who, first.startT.UTC().Format("15:04:05.000"), endOrInFlight(first), tsT.UTC().Format("15:04:05"), others)
 				return
 			}
-			replaysJudged++
-			if !(p.twinS && p.twinE) {
-				sim.Probe("reaccepted-after-timestamp-left-window")
-				return
+			if judgedAny {
+				replaysJudged++
 			}
-			capEff := g.capacity
-			others := othersBetween(g, p.ident, prev)
-			if capEff > 0 && others >= capEff {
-				sim.Probe("reaccepted-after-capacity-eviction")
-				return
-			}
-			e.Violate("replayed-proof-accepted", p.kind,
-				"%s: this proof was already accepted at worker clock %s..%s; its timestamp %s is still accepted by this worker (stateless twin accepts it) and at most %d other distinct proof(s) were admitted in between",
-				desc, prev.startT.UTC().Format("15:04:05.000"), prev.endT.UTC().Format("15:04:05.000"), tsT.UTC().Format("15:04:05"), others)
 		}
 
 		present := func(who, kind string, g *c25Gate, hdrs []string) *c25Pres {
@@ -364,7 +427,7 @@ func C25(e *simkern.Env) {
 				}
 			}
 			judge(p, err)
-			sim.Logf("pres %d %s/%s gate=%s passed=%v twin=%v/%v", p.id, who, kind, g.origin, p.passed, p.twinS, p.twinE)
+			sim.Logf("pres %d %s/%s gate=%s passed=%v twin=%v/%v ident=%s", p.id, who, kind, g.origin, p.passed, p.twinS, p.twinE, c25Short([]string{p.ident}))
 			return p
 		}
 
@@ -614,7 +677,7 @@ func init() {
 			"the worker clock is monotone (the simulated clock, optionally shifted by a constant through ProofConfig.Now); proxies' clocks are skewed, the worker's never steps backwards",
 			"timestamps are whole seconds: an accepted proof is flagged as outside the window only when it was at least skew+1 s away from the worker clock during the whole presentation",
 			"'its timestamp would still be accepted' is decided by a stateless twin of the same gate (same configuration, replay cache disabled) asked at the start and at the end of the re-presentation; both must accept",
-			"'the cache has since admitted more distinct proofs than its capacity' counts the replayed proof itself: the replay clause is waived once at least `capacity` other distinct proofs were admitted (or were still in flight) after the earlier acceptance began",
+			"'the cache has since admitted more distinct proofs than its capacity' counts the replayed proof itself: the replay clause is waived once at least `capacity` other distinct proofs may have been admitted between the two acceptances; the order of two acceptances of one proof is taken from the instant each passed the gate (exact when an inner authenticator is configured: its entry; otherwise the presentation's interval, and overlapping presentations are then judged only if the clause fails for either order)",
 			"two proof strings with identical fields and identical MAC bytes (different spare bits in the last base64 character) are the same proof",
 			"allow mode is not generated: the property constrains require mode only",
 		},
